@@ -611,7 +611,9 @@ def run(rep, tier, seed):
                 for i, cls in classes:
                     batches.append([(i, fill_message(rng, cls))])
                     batches.append([(i, cls()), (i, fill_message(rng, cls)), (i, cls())])
-                for b in batches:
+                for bi, b in enumerate(batches):
+                    # debug logging toggled in the middle of the session (every third batch goes out with it on): same writes
+                    cli.set_debug(bi % 3 == 1)
                     n0 = len(tr.writes)
                     want = [(i, m.SerializeToString()) for i, m in b]
                     conn.send_messages(tuple(m for _, m in b))
